@@ -31,6 +31,16 @@ Proof. vm_compute. reflexivity. Qed.
 Lemma imports_agree : imports_consistent imports = true /\ imports_uncovered imports shared = [].
 Proof. split; vm_compute; reflexivity. Qed.
 
+(* every temporary that R1/R2 eliminate in a twin occurs nowhere else in that twin *)
+Lemma temps_scoped_today : unscoped_temps shared = [].
+Proof. vm_compute. reflexivity. Qed.
+
+Lemma twins_denote_equal_scoped_today :
+  forall (A : Type) (s : tree -> A) (alg : N -> list A -> A),
+    compositional s alg -> await_transparent alg -> norm_sound_on_scoped s ->
+    forall m, In m shared -> ~ In (m_name m) constructor_exceptions -> s (m_async m) = s (m_sync m).
+Proof. exact (twins_denote_equal_scoped shared constructor_exceptions twins_equal temps_scoped_today). Qed.
+
 Lemma twins_denote_equal_today :
   forall (A : Type) (s : tree -> A) (alg : N -> list A -> A),
     compositional s alg -> await_transparent alg -> seq_rewrites_sound s alg ->
@@ -56,3 +66,6 @@ Lemma table_nontrivial :
   /\ forallb (fun m => tree_eqb (m_async m) (m_sync m)) shared = false
   /\ existsb (fun m => negb (tree_eqb (erase (m_async m)) (erase (m_sync m))) && twin_eqb m) shared = true.
 Proof. repeat split; vm_compute; reflexivity. Qed.
+
+Lemma temps_nontrivial : existsb (fun m => negb (match norm_vars (erase (m_async m)) with [] => true | _ => false end)) shared = true.
+Proof. vm_compute. reflexivity. Qed.
